@@ -1070,3 +1070,16 @@ M('C15', 'ts-stringified-key-written-raw', TSSTR, "  return repeatString(JSON_IN
 T('C15', 'twin-ts-stringified-key-through-a-local', TSSTR, "  return repeatString(JSON_INDENT, level) + JSON.stringify(key) + ': ';", "  const quoted = JSON.stringify(key);\n  return repeatString(JSON_INDENT, level) + quoted + ': ';")
 M('C15', 'ts-object-iterator-stops-on-falsy-key', TSCOM, "    if (key === undefined) {\n      return {\n        done: true,", "    if (!key) {\n      return {\n        done: true,", 'R15.16')
 T('C15', 'twin-ts-object-iterator-compares-reversed', TSCOM, "    if (key === undefined) {\n      return {\n        done: true,", "    if (undefined === key) {\n      return {\n        done: true,")
+
+# ---------------------------------------------------------------------------------------------- round 9 rules
+FLT = 'nbdime/vcs/git/filter_integration.py'
+M('C16', 'decision-printer-action-table-without-take-max', PP, "        elif dkey.startswith(decision.action):", "        elif dkey in _applied[decision.action]:", 'R16.25',
+  edits=[(PP, "def pretty_print_merge_decision(", "_applied = {'base': (), 'local': ('local_diff',), 'remote': ('remote_diff',), 'either': ('local_diff',), 'custom': ('custom_diff',), 'clear': ()}\n\n\ndef pretty_print_merge_decision(")])
+M('C08', 'path-arguments-expanded', ARGS, "        if not isinstance(value, bytes):\n            return value\n", "        if not isinstance(value, bytes):\n            return os.path.expanduser(value)\n", 'R08.17')
+T('C08', 'twin-path-type-returns-str-early', ARGS, "        if not isinstance(value, bytes):\n            return value\n", "        if isinstance(value, str):\n            return value\n")
+M('C01', 'line-differ-equality-cutoff-without-terminators', GEN, "    if len(a) == len(b) and a == b:\n        return []\n    \n    return diff_strings_linewise(a, b)", "    if a.splitlines() == b.splitlines():\n        return []\n    \n    return diff_strings_linewise(a, b)", 'R01.26')
+M('C02', 'flat-lists-diffed-from-difflib-opcodes', GEN, "def diff_sequence_multilevel(a, b, path=\"\", config=None):", "def _flat_opcodes(a, b):\n    import difflib\n    s = difflib.SequenceMatcher(None, [(type(x), x) for x in a], [(type(x), x) for x in b], autojunk=False)\n    return s.get_opcodes()\n\n\ndef diff_sequence_multilevel(a, b, path=\"\", config=None):", 'R02.27')
+M('C20', 'diff-endpoint-upgrades-before-diffing', SRV, "        try:\n            thediff = diff_notebooks(base_nb, remote_nb)", "        base_nb = nbformat.v4.upgrade(base_nb)\n        try:\n            thediff = diff_notebooks(base_nb, remote_nb)", 'R20.19')
+M('C04', 'minor-version-follows-the-merge-strategy', MNB, '        "/nbformat_minor": "take-max",', '        "/nbformat_minor": merge_strategy if merge_strategy.startswith("use-") else "take-max",', 'R04.15')
+M('C17', 'check-attr-without-z', FLT, "['git', 'check-attr', '-z', 'filter', '--', path]", "['git', 'check-attr', 'filter', '--', path]", 'R17.20')
+T('C17', 'twin-check-attr-arguments-in-a-local', FLT, "        spec = check_output(['git', 'check-attr', '-z', 'filter', '--', path])", "        argv = ['git', 'check-attr', '-z', 'filter', '--', path]\n        spec = check_output(argv)")
